@@ -72,5 +72,9 @@ the dict `map` (A-category -> class; `none` = key absent) -/
 structure SMapSelf (Wt P : Type) where
   a : Self Wt P
   map : List (Option Nat)
+  /-- `labels_`: the class labels seen so far -/
+  labelsB : List Nat := []
+  /-- `hasattr(self, "labels_")` -/
+  hasLabels : Bool := true
 
 end Art.Imp
